@@ -284,6 +284,21 @@ func (h *queryHarness) Run(t *testing.T, ci any) *Outcome {
 		return o
 	}
 	if er.err != nil {
+		if strings.Contains(feats, "bindingless-clause") {
+			// Known finding "bindingless clause": the rest of the pattern is evaluated as if the clause that binds nothing
+			// were absent. When the query without that clause is one whose sum() the engine legitimately refuses (values
+			// that are not all int64 / all float64), the failure is that finding showing through an error, not a new one.
+			q2 := *c.Q
+			q2.Where = nil
+			for _, cl := range c.Q.Where {
+				if len(clauseBindings(cl)) > 0 || (cl.S.K == "n" && cl.P.K == "p" && cl.O.K == "o") {
+					q2.Where = append(q2.Where, cl)
+				}
+			}
+			if _, _, info2 := refQuery(&q2, data); strings.HasPrefix(info2.Ambiguous, "sum over") && strings.Contains(er.err.Error(), "can only sum") {
+				return mk("bindingless-prefix-not-representable", "part of the pattern binds nothing and is evaluated as if absent; the remaining query sums values that are not all int64 / all float64, which the engine refuses: %v", er.err)
+			}
+		}
 		return mk("unexpected-error:"+errHead(er.err.Error()), "the engine rejected / failed a query the reference answers with %d rows: %v", len(want), er.err)
 	}
 	floatSum := map[int]bool{}
